@@ -258,6 +258,15 @@ def h_unit_layer(eng, names, bound):
     check(u * v, dimvec(e1 + f1, e2 + f2), "dim-product")
     check(u / v, dimvec(e1 - f1, e2 - f2), "dim-quotient")
     check(u**2, dimvec(2 * e1, 2 * e2), "dim-power")
+    # the same once both operands have answered for themselves (memoised dimensionality)
+    check(v, dimvec(f1, f2), "dim-v")
+    check(u * v, dimvec(e1 + f1, e2 + f2), "dim-product:operands-asked-before")
+    check(u / v, dimvec(e1 - f1, e2 - f2), "dim-quotient:operands-asked-before")
+    check(v / u, dimvec(f1 - e1, f2 - e2), "dim-quotient-reversed:operands-asked-before")
+    check(u**-1, dimvec(-e1, -e2), "dim-inverse:operand-asked-before")
+    eng.prove((u / u).dimensionless and (v / v).dimensionless, "unit-u/u-flag:operands-asked-before")
+    eng.prove(not (u * u).dimensionless or not u.dimensionality, "unit-u*u-flag:operands-asked-before")
+    check(ureg.Quantity(x, u).units / v, dimvec(e1 - f1, e2 - f2), "dim-quotient:quantity-units-by-asked-unit")
 
 
 def h_float_registry_fraction_exponents(eng):
